@@ -34,8 +34,12 @@
 (*    the backend only: per account let kstar be the newest stored batch with *)
 (*    ts <= t; kstar and everything newer is kept, everything older than kstar   *)
 (*    is deleted (all of it has b <= ts(kstar) <= t).  The timestamp of t is  *)
-(*    taken from an in-memory LRU filled by storeBlock: after a restart    *)
-(*    the collection is skipped until t is a block added since.            *)
+(*    taken from an in-memory LRU (8 entries) filled by storeBlock with    *)
+(*    the blocks at multiples of the GC period: after a restart - or when  *)
+(*    MaxTraceableBlocks spans more than 8 periods - the collection of     *)
+(*    transfers is silently skipped (gcT; the 8-entry limit is beyond the  *)
+(*    model's MaxBlocks).  In the model the period is 1 and Flush of a GC  *)
+(*    replica runs GC(h - MTB), as persist + tryRunGC do.                  *)
 (*                                                                         *)
 (* Named deviations (each must be caught by the abstract invariants):      *)
 (*  DevMemSeekExclusive  the in-memory layers compare the 12-byte key tail *)
